@@ -686,12 +686,109 @@ enum AnyCase {
     Udp(UdpCase),
 }
 
+/// The blocking provider's accept loop: `conns` connections (each a batch of
+/// requests in one segment, then EOF) are queued at a scripted listener and
+/// handed to a pool with `base` permanent workers ("several worker
+/// configurations": 0 = every connection runs on an auxiliary thread).
+#[derive(Clone, Debug)]
+pub struct AcceptCase {
+    pub base: usize,
+    pub linger_ms: u64,
+    pub conns: Vec<Vec<usize>>,
+}
+
+impl AcceptCase {
+    pub fn label(&self) -> String {
+        format!("accept base={} linger={}ms connections={:?}", self.base, self.linger_ms, self.conns)
+    }
+    pub fn to_json(&self) -> Value {
+        json!({"kind": "accept", "provider": "blocking", "tcp_base_workers": self.base, "linger_ms": self.linger_ms, "connections": self.conns})
+    }
+}
+
+pub fn accept_cases() -> Vec<AcceptCase> {
+    let mut v = Vec::new();
+    // batches: valid; edns-mx + nxdomain; formerr; qr-set (no response, closes)
+    let batches: [&[usize]; 4] = [&[0], &[1, 3], &[2], &[4]];
+    for base in [0usize, 1, 2] {
+        for linger_ms in [0u64, 5000] {
+            for a in 0..batches.len() {
+                v.push(AcceptCase { base, linger_ms, conns: vec![batches[a].to_vec()] });
+                for b in 0..batches.len() {
+                    v.push(AcceptCase { base, linger_ms, conns: vec![batches[a].to_vec(), batches[b].to_vec()] });
+                }
+            }
+            v.push(AcceptCase { base, linger_ms, conns: vec![vec![0], vec![1, 3], vec![0]] });
+            v.push(AcceptCase { base, linger_ms, conns: vec![] });
+        }
+    }
+    v
+}
+
+/// One execution of an accept-loop case under the schedule explorer.
+pub fn accept_body(case: &AcceptCase) -> crate::explore::ExecReport {
+    mcshim::reset();
+    let server = make_server();
+    let menu = request_menu();
+    let mut so = ShardOut::default();
+    check_accept_case(&server, &menu, case, &mut so);
+    let outcome = so.outcomes.keys().next().cloned().unwrap_or_default();
+    let violation = so.violations.into_iter().next().map(|(k, v)| (k, v.to_string()));
+    crate::explore::ExecReport { outcome, violation }
+}
+
+fn check_accept_case(server: &Arc<Server<srv::Cat>>, menu: &[(&str, Vec<u8>)], case: &AcceptCase, out: &mut ShardOut) {
+    let group = ThreadGroup::new();
+    let pool = group.start_pool(None, case.base, Duration::from_millis(case.linger_ms)).expect("pool");
+    let mut scripts = Vec::new();
+    let mut conns = Vec::new();
+    for (i, batch) in case.conns.iter().enumerate() {
+        let ip: IpAddr = format!("203.0.113.{}", 10 + i).parse().unwrap();
+        let reqs: Vec<Vec<u8>> = batch.iter().map(|k| menu[*k].1.clone()).collect();
+        let (stream, _) = frame(&reqs);
+        let (sock, script) = net::TcpStream::scripted(vec![ReadEv::Data(stream)]);
+        conns.push((sock, SocketAddr::new(ip, 40000 + i as u16)));
+        scripts.push((script, expected_tcp(server, &reqs, ip).concat()));
+    }
+    let g2 = group.clone();
+    let listener = net::TcpListener::scripted(conns, Box::new(move || g2.shut_down()));
+    let r = verif_blocking::listen(&pool, server, &listener);
+    group.shut_down();
+    drop(pool);
+    group.await_shutdown();
+    out.evals += 1;
+    out.transitions += case.conns.len() as u64 + 1;
+    let accepted = *listener.accepted.lock().unwrap();
+    out.outcome(format!("accept blocking base={} linger={}ms connections={} accepted={}", case.base, case.linger_ms, case.conns.len(), accepted), || case.to_json());
+    if let Err(e) = r {
+        let mut j = case.to_json();
+        j["what"] = json!(format!("the accept loop returned an I/O error although none was injected: {e}"));
+        out.violations.push(("accept-unexpected-error".to_string(), j));
+        return;
+    }
+    if accepted != case.conns.len() {
+        let mut j = case.to_json();
+        j["what"] = json!(format!("{accepted} of {} queued connections were accepted", case.conns.len()));
+        out.violations.push(("accept-connection-not-accepted".to_string(), j));
+    }
+    for (i, (script, expected)) in scripts.iter().enumerate() {
+        let sc = script.lock().unwrap();
+        if sc.written != *expected {
+            let mut j = case.to_json();
+            j["connection"] = json!(i);
+            j["expected_hex"] = json!(hex(expected));
+            j["observed_hex"] = json!(hex(&sc.written));
+            out.violations.push(("accept-connection-wrong-output".to_string(), j));
+        }
+    }
+}
+
 pub fn run(ctx: &Ctx) {
     let menu = request_menu();
     let umenu = udp_menu();
     let mut all: Vec<AnyCase> = Vec::new();
     if let Some(case) = ctx.replay_case() {
-        let batch: Vec<usize> = case["batch_idx"].as_array().unwrap().iter().map(|v| v.as_u64().unwrap() as usize).collect();
+        let batch: Vec<usize> = case["batch_idx"].as_array().map(|a| a.iter().map(|v| v.as_u64().unwrap() as usize).collect()).unwrap_or_default();
         let tokio = case["provider"].as_str() == Some("tokio");
         if case["kind"].as_str() == Some("udp") {
             all.push(AnyCase::Udp(UdpCase { tokio, batch, dev: case["dev"].as_str().unwrap().to_string() }));
